@@ -149,6 +149,8 @@ class AbsExec:
         return TOP
 
     def write_place(self, fr, pl, val):
+        if pl["p"] and hasattr(self.domain, "on_write"):
+            self.domain.on_write(self, fr, pl, val)
         if not pl["p"]:
             fr.env[pl["l"]] = val
             return
